@@ -161,8 +161,12 @@ def run_init(mutate=None, prefixes=("C",), seeded=False, again=False, narrow=Non
             seed_obj = type("SeedSolution", (), {})()
             seed_obj.device, seed_obj.tdgl_data = dev, sdata
             seed_kw = dict(seed_solution=seed_obj)
+        # terminal currents as a dict or (only in the units that ask for it) as a function of time that hands back ONE dict object at every call
+        as_function = bool(SB(z3.Bool("currents_given_as_a_function"))) if "currents_given_as_a_function" in (narrow or {}) else False
+        shared_currents = {"src": I_s, "drn": I_d}
+        tc_arg = (lambda t: shared_currents) if as_function else {"src": I_s, "drn": I_d}
         try:
-            s = Solver(dev, o, applied_vector_potential=A_func, terminal_currents={"src": I_s, "drn": I_d}, disorder_epsilon=eps0, **seed_kw)
+            s = Solver(dev, o, applied_vector_potential=A_func, terminal_currents=tc_arg, disorder_epsilon=eps0, **seed_kw)
         except ValueError as e:
             msg = str(e)
             kind = ("epsilon" if "epsilon" in msg else "currents" if "terminal currents" in msg or "sum of all" in msg else
@@ -234,6 +238,15 @@ def run_init(mutate=None, prefixes=("C",), seeded=False, again=False, narrow=Non
         cur = s.current_func(SR(R("t")))
         check("C08.J_scale_invariant", sym.eq(cur["src"] * K0 * ell, 4 * I_s * iota), fallback_extra=cong)
         check("C01.requested_current.scaled_for_every_terminal", z3.And(sym.eq(cur["drn"] * K0 * ell, 4 * I_d * iota), z3.BoolVal(set(cur) == {"src", "drn"})), fallback_extra=cong)
+        if as_function:
+            # the function is asked again at every step: every answer is the requested current in solver units, and the object the caller's function
+            # hands out belongs to the caller (it is not written)
+            cur2 = s.current_func(SR(R("t_later")))
+            cur3 = s.current_func(SR(R("t_even_later")))
+            check("C01.requested_current.function_of_time_scaled_the_same_at_every_call",
+                  z3.And(sym.eq(cur2["src"] * K0 * ell, 4 * I_s * iota), sym.eq(cur3["src"] * K0 * ell, 4 * I_s * iota), sym.eq(cur3["drn"] * K0 * ell, 4 * I_d * iota)), fallback_extra=cong)
+            check("C01.requested_current.callers_object_not_written", z3.BoolVal(shared_currents["src"] is I_s and shared_currents["drn"] is I_d and set(shared_currents) == {"src", "drn"}),
+                  note=str({k_: str(v_)[:60] for k_, v_ in shared_currents.items()}))
         check("C01.mu_boundary_initially_zero", sym.eq(s.mu_boundary.at(SI(FreshInt("b"))), 0))
         check("C01.terminal_density_cache_initially_zero", z3.BoolVal(all(v_ == 0 for v_ in s.terminal_current_densities.values()) and set(s.terminal_current_densities) == {"src", "drn"}))
         if screening:
